@@ -14,7 +14,7 @@ CFG = dict(
           "reader contexts otherwise stay live, shutdown cancels. Only correctly paired, deadlock-free programs are generated. "
           "Non-trivial: an operation confirmed blocked and later granted, a cancellation hitting a waiter, a delete-and-release "
           "with a waiter, or operations while a worker is parked at a schedule point. Distinct by program.",
-     technique="model-based property testing (rapid; controller/worker programs in testing/synctest bubbles; reference lock models, occupancy monitor; verif-tagged pause points)",
+     technique="model-based property testing (rapid; controller/worker programs in testing/synctest bubbles; reference lock models, occupancy monitor; verif-tagged pause points; exhaustive miss-window sweep) + randomized real-thread stress with an atomic occupancy oracle",
      level_text="Generated programs against reference lock models with confirmed-blocked/returned observations after every step; "
                 "exact virtual time for the outer-cancel grace period; few-instruction windows placed through verif points.",
      level_note="Trusts testing/synctest, runtime.Stack goroutine states, rapid. Exclusion across OuterCancel shutdown is not asserted "
